@@ -403,6 +403,7 @@ func (obj *DenseFloat32VectorJointIterator) Ok() bool {
          !(obj.s2 == nil || obj.s2.GetFloat64() == 0.0)
 }
 func (obj *DenseFloat32VectorJointIterator) Next() {
+next:
   ok1 := obj.it1.Ok()
   ok2 := obj.it2.Ok()
   obj.s1.ptr = nil
@@ -421,6 +422,8 @@ func (obj *DenseFloat32VectorJointIterator) Next() {
       obj.s2 = obj.it2.GetConst()
     }
   }
+  // true if at least one iterator is advanced below
+  advanced := obj.s1.ptr != nil || obj.s2 != nil
   if obj.s1.ptr != nil {
     obj.it1.Next()
   }
@@ -428,6 +431,11 @@ func (obj *DenseFloat32VectorJointIterator) Next() {
     obj.it2.Next()
   } else {
     obj.s2 = ConstFloat32(0.0)
+  }
+  // skip positions where all elements are zero, stop only when
+  // all iterators are exhausted
+  if !obj.Ok() && advanced {
+    goto next
   }
 }
 func (obj *DenseFloat32VectorJointIterator) GetConst() (ConstScalar, ConstScalar) {
